@@ -252,6 +252,11 @@ func runC02(s C02Scenario) pbt.Outcome {
 					k, len(run.ops), opDesc(run.ops, k), torn, len(got2), len(want))
 				return &o
 			}
+			if nl := nameLost(imgDir, s.Cfg); nl != "" {
+				o := pbt.Failf("name-lost", "crash before op %d/%d (%s) torn=%d, then recovery, %d more writes and a clean close: the records are back but %s",
+					k, len(run.ops), opDesc(run.ops, k), torn, len(es), nl)
+				return &o
+			}
 		} else {
 			c2.Close()
 		}
